@@ -81,7 +81,7 @@ AssignCases ==
 CmpOps == {"<", "<=", "==", "!=", ">", ">="}
 Inverse(op) == CASE op = "<" -> ">=" [] op = "<=" -> ">" [] op = "==" -> "!=" [] op = "!=" -> "==" [] op = ">" -> "<=" [] op = ">=" -> "<"
 Mirror(op)  == CASE op = "<" -> ">" [] op = "<=" -> ">=" [] op = "==" -> "==" [] op = "!=" -> "!=" [] op = ">" -> "<" [] op = ">=" -> "<="
-Operands == { N(1), N(2), N(10), S(<<c_a>>), S(<<D1, D0>>), S(<<D9>>), Fld(N(1)), Fld(N(2)), Fld(N(3)), V("u"), S(<<>>) }
+Operands == { N(0), N(1), N(2), N(10), S(<<c_a>>), S(<<D0>>), S(<<D1, D0>>), S(<<D9>>), Fld(N(1)), Fld(N(2)), Fld(N(3)), V("u"), S(<<>>) }
 
 TF(c) == SIf(c, <<T1(<<C_T>>)>>, <<T1(<<C_F>>)>>)
 CondSpellings(op, x, y) ==
@@ -218,6 +218,14 @@ CallCases ==
       Prog(<<SExpr(Call("f", <<V("a"), N(3)>>)), SPrint(<<Bi("alength", <<V("a")>>), Idx("a", N(1)), Idx("a", N(3))>>)>>, <<>>, <<>>,
            <<Func("f", <<AParam("A"), Param("p")>>, <<SIf(Bin(">", V("p"), N(0)), <<SExpr(Asg(Idx("A", V("p")), S(<<c_g>>))), SExpr(Call("g", <<V("A"), Bin("-", V("p"), N(1))>>))>>, <<>>)>>),
              Func("g", <<AParam("B"), Param("q")>>, <<SIf(Bin(">", V("q"), N(0)), <<SExpr(Asg(Idx("B", V("q")), S(<<c_h>>))), SExpr(Call("f", <<V("B"), Bin("-", V("q"), N(1))>>))>>, <<>>)>>)>>)>>,
+    <<"deep-recursion-locals-survive-stack-growth",
+      Prog(<<SPrint(<<Call("f", <<N(45)>>), Call("h", <<N(40)>>)>>)>>, <<>>, <<>>,
+           <<Func("f", <<Param("p"), Param("l"), Param("r")>>,
+                  <<SIf(Bin("==", V("p"), N(0)), <<SRet(N(0))>>, <<>>), SExpr(Asg(V("l"), V("p"))),
+                    SExpr(Asg(V("r"), Call("f", <<Bin("-", V("p"), N(1))>>))), SRet(Bin("+", V("l"), V("r")))>>),
+             Func("h", <<Param("p"), Param("l"), Param("m")>>,
+                  <<SIf(Bin("==", V("p"), N(0)), <<SRet(N(0))>>, <<>>), SExpr(Asg(V("l"), V("p"))), SExpr(Asg(V("m"), N(1))),
+                    SRet(Bin("+", Bin("+", Call("h", <<Bin("-", V("p"), N(1))>>), V("l")), V("m")))>>)>>)>>,
     <<"return-inside-loops",
       Prog(<<SPrint(<<Call("f", <<N(2)>>)>>), SPrint(<<Call("f", <<N(9)>>)>>)>>, <<>>, <<>>,
            <<Func("f", <<Param("p"), Param("i"), Param("j")>>,
